@@ -878,7 +878,53 @@ def run(ctx):
                     fact_holds(facts, lambda a: 'size()' in dstr(a) and cont in dstr(a), None)
                 ctx.check('C13.N2', ok, f.name, 'begin-deref-unguarded:%s' % cont, f.where(u),
                           '`%s` (= %s.begin()) is dereferenced in %s only where %s is known non-empty' % (v, cont, f.name, cont))
-    ctx.floor('C13.N2', 1)
+    # the same for element access: `v[0]`, `v.front()`, `v.back()` on a local / parameter container is reached only
+    # where the container is known non-empty - by a guard fact on empty() / size(), or because an element was put into
+    # it (push_back / emplace_back / resize / sized or brace constructor) on every way there
+    FIRST_EXEMPT = {
+        ('SubprocessSet::DoWork', 'fds'): 'the pollfd array gets a dummy entry when nothing else was pushed (`if (nfds == 0) push_back`), nfds counts the pushes',
+    }
+    n2b = 0
+    for f in fns:
+        for u in f.events('call'):
+            nm = u.get('name') or ''
+            if not nm.startswith('std::'):
+                continue
+            ln = lastname(nm).split('<')[0]
+            r = strip(u.get('recv'))
+            if not (isinstance(r, dict) and r.get('k') == 'var' and r.get('vk') in ('local', 'param')):
+                continue
+            if not ((u.get('op') == '[]' and const_value((u.get('args') or [None])[0]) == 0) or ln in ('front', 'back')):
+                continue
+            v = r['n']
+            n2b += 1
+            facts = f.facts_at(u)
+            ok = fact_holds(facts, lambda a: 'empty()' in dstr(a) and mentions_var(a, v), False) or \
+                fact_holds(facts, lambda a: ('size()' in dstr(a) or 'length()' in dstr(a)) and mentions_var(a, v), None)
+            why = 'guard fact'
+            if not ok:
+                def fills(x, v=v, f=f):
+                    if x.get('k') == 'call' and isinstance(strip(x.get('recv')), dict) and strip(x['recv']).get('k') == 'var' and strip(x['recv'])['n'] == v:
+                        l2 = lastname(x.get('name') or '').split('<')[0]
+                        if l2 in ('push_back', 'emplace_back', 'insert', 'assign', 'append'):
+                            return True
+                        if l2 == 'resize' and x.get('args'):
+                            c0 = const_value(x['args'][0])
+                            if (c0 or 0) > 0 or (c0 is None and bounds(f, x, x['args'][0])[0] > 0):
+                                return True
+                    if x.get('k') == 'decl' and x.get('n') == v and x.get('init') is not None:
+                        i0 = unwrap_conv(x['init'])
+                        return isinstance(i0, dict) and i0.get('k') in ('ctor', 'init', 'construct') and len(i0.get('args') or i0.get('e') or []) >= 1
+                    return False
+                ok = f.find_path(None, lambda x: x is u, is_blocker=fills, from_succ=f.entry) is None
+                why = 'filled on every path'
+            if not ok and (f.name, v.split('#')[0]) in FIRST_EXEMPT:
+                ok = True
+                why = 'exempt: ' + FIRST_EXEMPT[(f.name, v.split('#')[0])]
+            ctx.check('C13.N2', ok, f.name, 'first-element-unguarded:%s' % v, f.where(u),
+                      '`%s` in %s is reached only where %s is known non-empty (%s)' % ((u.get('src') or '')[:40], f.name, v, why))
+    ctx.check('C13.N2', n2b >= 8, 'first-element accesses', 'first-element:sites', 'src', '%d accesses examined' % n2b)
+    ctx.floor('C13.N2', 10)
 
     # ---- E1: exceptions --------------------------------------------------------------------------------
     R('C13.E1', 'E', 'ninja catches nothing: std::get<T> on the result variant is guarded by the matching '
@@ -901,4 +947,25 @@ def run(ctx):
                     ok = fact_holds(facts, lambda a: ('holds_alternative<%s>' % alt) in dstr(a), True)
                     ctx.check('C13.E1', ok, g.name, 'variant-get-unguarded:%s' % alt, g.where(c),
                               'std::get<%s> reached in %s only after holds_alternative<%s>' % (alt, g.name, alt))
-    ctx.floor('C13.E1', 1)
+    # nothing is caught, so nothing may throw on input: the throwing conversions and accessors of the standard library
+    # (std::stoi family: invalid_argument / out_of_range on text that is not a number; at(): out_of_range) are not used
+    # on any data - ninja parses numbers with atoi / strtol / from_chars and checks indices itself
+    def throwing(e):
+        nm = (e.get('name') or '')
+        base = nm.split('<')[0]
+        return base in ('std::stoi', 'std::stol', 'std::stoll', 'std::stoul', 'std::stoull', 'std::stof', 'std::stod', 'std::stold') or \
+            (nm.startswith('std::') and lastname(nm).split('<')[0] == 'at')
+    nthrow = 0
+    for f in prog.functions.values():
+        if f.file.startswith('third_party'):
+            continue
+        for e in f.events('call'):
+            if throwing(e):
+                nthrow += 1
+                ctx.violation('C13.E1', f.name, 'throwing-conversion:%s' % basename(e.get('name') or ''), f.where(e),
+                              '%s throws on malformed input and ninja has no handler: `%s`' % (basename(e.get('name') or ''), (e.get('src') or '')[:60]))
+    ctrl = [e for e in fx.fn('nvctl::ThrowingConversion').events('call') if throwing(e)]
+    if len(ctrl) != 1:
+        raise AnalysisBroken('E1 control failed')
+    ctx.inst('C13.E1', 'fixtures/controls.cc', 'control: nvctl::ThrowingConversion is recognised; %d such calls in ninja' % nthrow)
+    ctx.floor('C13.E1', 2)
